@@ -321,6 +321,18 @@ func runReplay(h *hctx, path string) {
 			raceEval(h, []*procScenario{&sc}, bin)
 			return
 		}
+		if sc.Once && sc.Burst {
+			scs := make([]*procScenario, 12)
+			for i := range scs {
+				scs[i] = &sc
+			}
+			if !h.pcfg.ProcWired {
+				h.res.Fatalf("replay: the real Processor cannot be driven")
+				return
+			}
+			evalBurst(h, scs)
+			return
+		}
 		if sc.Once {
 			scs := make([]*procScenario, 12)
 			for i := range scs {
